@@ -27,6 +27,9 @@ pub struct Args {
     pub mem_cap: u64,
     pub steps: u64,
     pub selftest_seeds: u64,
+    /// worker role: "" = ordinary worker, "clean" = never runs gram code itself (every launch in
+    /// a forked child), serves the process-isolated groups of an ordinary worker
+    pub role: String,
 }
 
 impl Args {
@@ -55,6 +58,7 @@ impl Args {
             mem_cap: 8 << 30,
             steps: 100_000,
             selftest_seeds: 0,
+            role: String::new(),
         };
         let mut i = 2;
         while i < argv.len() {
@@ -84,6 +88,7 @@ impl Args {
                 "--mem-cap" => a.mem_cap = num()?,
                 "--steps" => a.steps = num()?,
                 "--selftest-seeds" => a.selftest_seeds = num()?,
+                "--role" => a.role = val.clone(),
                 _ => return Err(format!("unknown argument {key}")),
             }
             i += 2;
@@ -130,6 +135,9 @@ impl Args {
         push("--cap-ms", self.cap_ms.to_string());
         push("--mem-cap", self.mem_cap.to_string());
         push("--steps", self.steps.to_string());
+        if !self.role.is_empty() {
+            push("--role", self.role.clone());
+        }
         v
     }
 }
